@@ -246,7 +246,7 @@ T_VALUES = [300.0, 300.00000000000006, 300.5, 500.0, 999.9999999999999, 1000.0, 
             1500.0, 2499.9999999999995, 2500.0]
 P_VALUES = [0.01, 0.010000000000000002, 0.1, 1.0, 1.0000000000000002, 10.0, 99.99999999999999, 100.0]
 SPANS = [0.0, 1.0, 5.0, 20.0, 59.99, 60.0]
-FEED_KINDS = ['mixed', 'onehot', 'all', 'tiny', 'int', 'mixed']
+FEED_KINDS = ['mixed', 'onehot', 'all', 'tiny', 'int', 'trace', 'mixed']
 SCALES = [1.0, 1e-3, 1.0, 1e3, 1.0, 1e-6, 1.0, 1e6]
 NUM_TYPES = ['float', 'int', 'np.float64', 'np.int64', 'float']
 
@@ -301,15 +301,68 @@ def _feed(rnd, forms, els, kind):
     return feed
 
 
+def _trace_forms(rnd, forms, els, nc):
+    """Rearrange the formulas so that the last element occurs only in the last nc species
+    (the carriers of the trace element) and the other species hold every other element.
+    Returns None when that cannot be done with distinct formulas."""
+    tr = els[-1]
+    forms = [dict(f) for f in forms]
+    n = len(forms)
+    nc = max(1, min(nc, n - 1))
+    for i, f in enumerate(forms):
+        if i < n - nc:
+            f[tr] = 0
+            if not sum(f.values()):
+                f[els[0]] = 1 + i % 4
+        elif not f[tr]:
+            f[tr] = 1 + i % 3
+    for e in els[:-1]:
+        if not any(f[e] for f in forms[:n - nc]):
+            forms[rnd.randrange(n - nc)][e] = 1 + rnd.randrange(3)
+    for _ in range(50):                       # make the formulas distinct again
+        dup = [(a, b) for a in range(n) for b in range(a) if forms[a] == forms[b]]
+        if not dup:
+            return forms
+        a = dup[0][0]
+        e = rnd.choice(els[:-1]) if a < n - nc else rnd.choice(els)
+        forms[a][e] = forms[a][e] % 6 + 1
+    return None
+
+
+def _trace_feed(rnd, forms, els, k):
+    """One element's feed total is ratio (1e-6 .. 1e-12) of the largest other element total,
+    supplied through one or through several of its carrier species."""
+    tr = els[-1]
+    n = len(forms)
+    carriers = [i for i in range(n) if forms[i][tr]]
+    feed = [0.0 if forms[i][tr] else rnd.choice([0.0, 1.0, 0.5, 2.0, round(rnd.uniform(0.05, 3.0), 2)])
+            for i in range(n)]
+    for e in els[:-1]:
+        if not any(feed[i] > 0 and forms[i][e] for i in range(n)):
+            feed[rnd.choice([i for i in range(n) if forms[i][e] and not forms[i][tr]])] += 1.0
+    big = max(sum(feed[i] * forms[i][e] for i in range(n)) for e in els[:-1])
+    ratio = [1e-6, 1e-8, 1e-9, 1e-10, 1e-12][(k // 7) % 5]
+    fedc = carriers if (k // 7) % 2 and len(carriers) > 1 else [rnd.choice(carriers)]
+    for i in fedc:
+        feed[i] = float('%.3g' % (ratio * big / len(fedc) / forms[i][tr]))
+    return feed, {'element': tr, 'ratio': ratio, 'carriers_fed': len(fedc), 'carriers': len(carriers)}
+
+
 def random_case(rnd, cid, wellcond=False, k=0):
     """Stratified by the running index k: species count, element count, name style, feed
     class, amount scale and number types cycle through their whole ranges."""
     nel = 1 + k % 4
+    if not wellcond and FEED_KINDS[k % len(FEED_KINDS)] == 'trace':
+        nel = 2 + k % 3                       # a trace ELEMENT needs another element beside it
     ns = 2 + k % 5 if wellcond else 2 + k % 11
     els = rnd.sample(ELEMENTS, nel)
     if k % 3 == 0 and not any(len(e) == 2 for e in els):
         els[rnd.randrange(nel)] = rnd.choice([e for e in ELEMENTS if len(e) == 2 and e not in els])
     forms = _formulas(rnd, els, ns)
+    fkind = 'all' if wellcond and k % 3 else FEED_KINDS[k % len(FEED_KINDS)]
+    if fkind == 'trace':
+        tf = _trace_forms(rnd, forms, els, 1 + (k // 7) % 3) if nel >= 2 else None
+        forms, fkind = (tf, 'trace') if tf else (forms, 'mixed')
     T = T_VALUES[(k // 2) % len(T_VALUES)] if k % 2 == 0 else round(rnd.uniform(300.0, 2500.0), 1)
     Ps = [P_VALUES[(k // 2) % len(P_VALUES)] if k % 3 else float('%.3g' % 10 ** rnd.uniform(-2, 2))]
     if k % 4 == 1:
@@ -324,8 +377,11 @@ def random_case(rnd, cid, wellcond=False, k=0):
         name = 'S%d' % i if style == 0 else hill(f) if style == 1 else \
             hill(f) + NAME_SUFFIXES[(k + i) % len(NAME_SUFFIXES)]
         spec.append(species_spec(rnd, name, f, g, T, 'nasa', phase='G' if k % 4 == 2 else 'any'))
-    fkind = 'all' if wellcond and k % 3 else FEED_KINDS[k % len(FEED_KINDS)]
-    feed = _feed(rnd, forms, els, fkind)
+    trace = None
+    if fkind == 'trace':
+        feed, trace = _trace_feed(rnd, forms, els, k)
+    else:
+        feed = _feed(rnd, forms, els, fkind)
     scale = SCALES[k % len(SCALES)]
     feed = [x if x == 1e-12 else float('%.6g' % (x * scale)) for x in feed]
     points = [[T, P] for P in Ps]
@@ -336,7 +392,7 @@ def random_case(rnd, cid, wellcond=False, k=0):
     rnd.shuffle(perm)
     return {'cid': cid, 'kind': 'wellcond' if wellcond else 'rand', 'elements': els,
             'species': spec, 'feed': feed, 'points': points, 'perm': perm,
-            'feedkind': fkind, 'scale': scale, 'namestyle': style,
+            'feedkind': fkind, 'scale': scale, 'namestyle': style, 'trace': trace,
             'types': {'T': NUM_TYPES[k % 5], 'P': NUM_TYPES[(k // 5) % 5],
                       'feed': NUM_TYPES[(k // 3) % 5]}}
 
